@@ -30,7 +30,17 @@ def payload(r, big=False, maxlen=4096):
     return r.randbytes(n)
 
 
+# message ids with a meaning of their own in the SOME/IP world: the TCP magic cookies (service 0xFFFF, method 0x0000 /
+# 0x8000, empty payload), the SD id, the event bit - a message using them is still just a message
+SPECIAL_IDS = [(0xFFFF, 0x0000), (0xFFFF, 0x8000), (0xFFFF, 0x8100), (0xFFFF, 0xFFFF), (0x0000, 0x0000), (0xFFFE, 0x8000)]
+
+
 def message(r, big=False, maxlen=4096):
+    if r.random() < 0.08:
+        sid, mid = r.choice(SPECIAL_IDS)
+        return H.SOMEIPHeader(service_id=sid, method_id=mid, client_id=r.choice([0xDEAD, 0, id16(r)]), session_id=r.choice([0xBEEF, 0, id16(r)]),
+                              interface_version=r.choice([1, 0, 0xFF]), message_type=r.choice(MSG_TYPES), return_code=r.choice(RET_CODES),
+                              payload=b"" if r.random() < 0.7 else payload(r, big, maxlen))
     return H.SOMEIPHeader(
         service_id=id16(r),
         method_id=id16(r),
